@@ -111,7 +111,7 @@ def cases(rng, tier):
 
 
 SPEC = {
-    'lean': ['C03'],
+    'lean': ['C03', 'ByName'],
     'cases': cases,
     'big': True,
     'stream': 'C03 marked-position stream',
